@@ -82,6 +82,11 @@ func VerifHarness_C15_manager_close() {
 	vAssert(vAnd(len(a.permissions) == 0, len(b.permissions) == 0), "C15.close_drops_all_permissions")
 	vAssert(vArmedTimers() == 0, "C15.close_stops_every_timer")
 	vAssert(env.Ev.PermDeleted == 2, "C15.close_reports_every_permission_deleted_once")
+	// the relay goroutines now see their closed sockets and finish the teardown
+	vRunSpawn(0)
+	vRunSpawn(1)
+	vAssert(m.AllocationCount() == 0, "C15.after_server_close_no_allocation_remains")
+	vAssert(env.Ev.AllocDeleted == 2, "C15.every_allocation_reported_deleted_once")
 	_ = m.Close()
 	vAssert(vAnd(env.Relays[0].Closed == 1, env.Listeners[0].Closed == 1), "C15.second_close_releases_nothing_again")
 	vAssert(env.Ev.PermDeleted == 2, "C15.second_close_emits_no_event")
